@@ -202,7 +202,10 @@ def execute(case):
     elif mode == 'deepcopy':
       twin = copy.deepcopy(root)
     else:
-      locs = [pg.KeyPath(k, n.sym_path) for n in treeops.preorder(root) if not isinstance(n, pg.Ref)
+      # (not the members of a placeholder or of a DNA: those are their internals - a OneOf with num_choices=0 is
+      # not a value a caller may ask for - and the library is free to refuse such a write any way it likes)
+      locs = [pg.KeyPath(k, n.sym_path) for n in treeops.preorder(root)
+              if not isinstance(n, (pg.Ref, pg.hyper.HyperPrimitive, pg.DNA)) and not _inside_internal(n)
               for k, _ in n.sym_items()]
       ov = case.get('ov', [0, 0])
       if not locs or not isinstance(ov, list) or len(ov) != 2 or isinstance(ov[0], bool) or not isinstance(ov[0], int):
